@@ -39,10 +39,14 @@ def run(ctx: Ctx) -> None:
     traces, metas = [], []
     try:
         key = b"M" * 32
-        for ident in ("anon", "A"):
+        # two deployments: tokens expire after the TTL / token_ttl = 0 (expiry disabled; every other rule still applies)
+        for ttl_world, ident in [(w, i) for w in ("ttl", "noexpiry") for i in ("anon", "A")]:
+            world_ttl = TTL_TICKS * TICK_S if ttl_world == "ttl" else 0
             for m in METHS + ["xu1"]:
-                warm = H.Worker(key, 8, TTL_TICKS * TICK_S, server_id="w1")
-                cold = H.Worker(key, 0, TTL_TICKS * TICK_S, server_id="w2")
+                if ttl_world == "noexpiry" and ctx.quick and m in ("xc", "pe"):
+                    continue
+                warm = H.Worker(key, 8, world_ttl, server_id="w1")
+                cold = H.Worker(key, 0, world_ttl, server_id="w2")
                 meth = "xu" if m == "xu1" else m
                 init = warm.init(meth, ident, which=1 if m == "xu1" else 0)
                 if not init["served"] or init["cursor"] is None:
@@ -70,7 +74,7 @@ def run(ctx: Ctx) -> None:
                                                      "ident": pid, "status": r_["status"], "served": r_["served"], "hooks": hooks}
                                              if (len(traces) + age) % 5 == 0 and ep != meth else None)
                                     sig = {"minted_by": m, "endpoint": ep, "worker": "warm" if wname == "w1" else "cold", "cancel": cancel,
-                                           "same_ident": pid == ident}
+                                           "same_ident": pid == ident, "token_ttl": ttl_world}
                                     det = {"status": r_["status"], "served": r_["served"], "values": r_["values"], "hooks": hooks,
                                            "error": (r_["error"] or {}).get("message")}
                                     if foreign:
@@ -98,19 +102,25 @@ def run(ctx: Ctx) -> None:
                             ctx.case([m, "own-cursor+foreign-call", other, wname, cancel, ident],
                                      sample={"endpoint": meth, "cursor_of": meth, "call_token_of": other, "worker": wname,
                                              "status": r_["status"], "served": r_["served"], "hooks": hooks} if other == METHS[0] else None)
-                            sig = {"minted_by": m, "endpoint": meth, "call_token_of": other, "worker": "cold", "cancel": cancel}
+                            sig = {"minted_by": m, "endpoint": meth, "call_token_of": other, "worker": "cold", "cancel": cancel,
+                                   "token_ttl": ttl_world}
                             if r_["served"] or r_["status"] != 400 or hooks:
                                 ctx.violation("OwnInitOnly", sig, {"status": r_["status"], "served": r_["served"], "hooks": hooks,
                                                                    "error": (r_["error"] or {}).get("message")})
                             ev.append({"a": "cont", "w": wname, "id": ident, "ep": meth, "cur": tok(), "call": otok,
                                        "served": bool(r_["served"])})
                 traces.append({"caps": {"w1": 8, "w2": 0}, "ev": ev})
-                metas.append({"minted_by": m, "ident": ident})
+                metas.append({"minted_by": m, "ident": ident, "token_ttl": ttl_world})
     finally:
         clock.restore()
-    c = consts(10**6, False, methods='{"xa", "xb", "xc", "xu", "pd", "pe"}')
-    c["MaxStreams"] = 8
-    vs = tracecheck.validate(ctx, wd, "HttpStreamTrace", traces, constants=c, name="HttpStreamTrace (cross-method presentations)")
+    vs = [None] * len(traces)
+    for world in ("ttl", "noexpiry"):
+        idx = [i for i, mt in enumerate(metas) if mt["token_ttl"] == world]
+        c = consts(10**6, False, methods='{"xa", "xb", "xc", "xu", "pd", "pe"}', no_expiry=world == "noexpiry")
+        c["MaxStreams"] = 8
+        for i, v in zip(idx, tracecheck.validate(ctx, wd, "HttpStreamTrace", [traces[i] for i in idx], constants=c,
+                                                 name=f"HttpStreamTrace (cross-method presentations, {world})")):
+            vs[i] = v
     for v, meta, tr in zip(vs, metas, traces):
         for cl in v["bad"]:
             ctx.violation(cl, {"via": "trace", **meta}, {"tlc": v})
